@@ -106,7 +106,9 @@ class C16(Property):
             "schedule/transfer/execute, soft | fail-stop with exactly the named jobs' directories deleted, count 1..3) and several jobs failing at once; "
             "compared: outputs (tags and file contents) with the reference run, all steps COMPLETED, no hang; and the observed sequence of stagings, "
             "executions, losses and failed attempts is replayed on the Lean job-step model (every action must be enabled, available values = "
-            "failure-free values). Quick: ~7 shapes x 3-4 plans; thorough: 17 shapes x 7 plans.")
+            "failure-free values). Corpus: the known finding, scatter re-run inside a recovery workflow, and a forced interleaving (event gates) in which "
+            "a second recovery attaches to a running one after the shared producer's re-run has emitted its output but before the scheduler sees it "
+            "completed (hang = violation). Quick: ~7 shapes x 3-4 plans; thorough: 17 shapes x 7 plans.")
     trusted_base = ["recovery harness harness/sfv/rt/recov.py (own injectors; events logged at transfer / execute / deletion)",
                     "the abstract job-step model collapses schedule+transfer+execute, treats data as values and availability as a store; tags, "
                     "boundary rules, `restore` and the data manager are exercised by the real runs only"]
@@ -142,6 +144,20 @@ class C16(Property):
             cases.append({"name": f"corpus scatter3 fail-stop {ph} failure of b/0.1 deleting a (scatter re-run in the recovery workflow)",
                           "shape": sh3, "max_retries": 6,
                           "plan": [{"step": "/b", "tag": "0.1", "phase": ph, "kind": "failstop", "count": 1, "lose": [["/b", "0.1"], ["/a", "0"]]}]})
+        # corpus: forced interleaving (gates of the harness) — b1's fail-stop failure loses a; the re-run of a has ALREADY put its output into
+        # the port of the first recovery workflow but the scheduler does not yet see it COMPLETED when b2 fails: b2's recovery attaches to the
+        # running recovery and must be handed the token that is already in the port (InterWorkflowPort.add_inter_port replays the port)
+        shd = {"kind": "diamond"}
+        if not any(c["shape"] == shd and c.get("ref") for c in cases):
+            cases.append({"name": f"ref {json.dumps(shd, sort_keys=True)}", "shape": shd, "plan": [], "max_retries": 6, "ref": True})
+        for b2kind in (["soft"] if quick else ["soft", "failstop"]):
+            cases.append({"name": f"corpus diamond b2 fails ({b2kind}) after the re-run of a emitted its output, before it is seen COMPLETED (attach to a filled port)",
+                          "shape": shd, "max_retries": 6, "trace_fm": True, "timeout": 45,
+                          "plan": [{"step": "/b1", "tag": "0", "phase": "execute", "kind": "failstop", "count": 1, "lose": [["/b1", "0"], ["/a", "0"]]},
+                                   {"step": "/b2", "tag": "0", "phase": "execute", "kind": b2kind, "count": 1}],
+                          "gates": [{"job": "/b2/0", "attempt": 1, "wait": "a-emitted-again", "timeout": 30},
+                                    {"job": "/a/0", "attempt": 2, "phase": "completed", "signal": "a-emitted-again", "wait": "synced:/b2/0",
+                                     "timeout": 30}]})
         results = {}
         for case, status, r in recov.run_cases(cases, timeout=300, workers=6):
             results[case["name"]] = (case, status, r)
